@@ -179,6 +179,67 @@ theorem written_lines_were_accepted {s : St} (h : Reachable s) (l : Line) (hl : 
   simp only [proj, List.mem_map, List.mem_filter]
   exact ⟨x, ⟨List.mem_append_left _ hx, by simp⟩, rfl⟩
 
+/-! ### The levels in force at Start: flags, `ParseLevel`, `Severity.Name` -/
+
+/-- `ParseLevel` knows exactly the six severities: its result is 0 (unknown name) or one of them … -/
+theorem parseLevel_range (s : String) :
+    parseLevel s = 0 ∨ ∃ c ∈ PB.Gen.Log.severities, c.2 = parseLevel s := by
+  unfold parseLevel lookupLevel
+  generalize s.toLower = t
+  simp only [PB.Gen.Log.levelNames, List.lookup]
+  repeat' split
+  all_goals first | (left; rfl) | (right; decide)
+
+/-- … and it reads back what `Severity.Name` prints, for every severity (both tables regenerated). -/
+theorem parseLevel_reads_names : ∀ c ∈ PB.Gen.Log.severities, lookupLevel (severityName c.2) = c.2 := by decide
+
+/-- Without flags Start leaves the levels as they were set before. -/
+theorem start_without_flags (f : String → Nat) (pre : Levels) : startLevels f pre "" "" = pre := by
+  simp [startLevels]
+
+/-- `-log`: a known name sets the global level to that severity, an unknown one to info. -/
+theorem start_log_flag (f : String → Nat) (pre : Levels) (lf pf : String) (h : lf ≠ "") :
+    (startLevels f pre lf pf).glob = if parseLevel lf = 0 then PB.Gen.Log.infoLevel else parseLevel lf := by
+  unfold startLevels
+  by_cases hp : pf = "" <;> simp [h, hp]
+
+/-- A non-empty `-plog` activates the package levels (whatever could be read of it) and replaces the
+    package levels set before Start; an empty one leaves them alone. -/
+theorem start_plog_flag (f : String → Nat) (pre : Levels) (lf pf : String) :
+    (pf ≠ "" → (startLevels f pre lf pf).active = true) ∧
+    (pf = "" → (startLevels f pre lf pf).active = pre.active ∧ (startLevels f pre lf pf).pkgs = pre.pkgs) := by
+  unfold startLevels
+  by_cases hp : pf = "" <;> simp [hp]
+
+/-- The `-plog` loop stops at the first pair that is not `name=<known level>`: what follows is not read. -/
+theorem parsePairs_stops (good : List (List String)) (bad : List String) (rest : List (List String))
+    (acc : List (String × Nat)) (hb : ∀ k v, bad = [k, v] → parseLevel v = 0) :
+    parsePairs (good ++ bad :: rest) acc = parsePairs (good ++ [bad]) acc := by
+  induction good generalizing acc with
+  | nil =>
+    match bad, hb with
+    | [], _ => simp [parsePairs]
+    | [_], _ => simp [parsePairs]
+    | [k, v], hb => simp [parsePairs, hb k v rfl]
+    | _ :: _ :: _ :: _, _ => simp [parsePairs]
+  | cons g gs ih =>
+    match g with
+    | [] => simp [parsePairs]
+    | [_] => simp [parsePairs]
+    | [k, v] =>
+      simp only [List.cons_append, parsePairs]
+      split
+      · rfl
+      · exact ih _
+    | _ :: _ :: _ :: _ => simp [parsePairs]
+
+/-- A well-formed pair sets its package's level (replacing an earlier entry for the same package). -/
+theorem parsePairs_pair (k v : String) (rest : List (List String)) (acc : List (String × Nat))
+    (hv : parseLevel v ≠ 0) :
+    parsePairs ([k, v] :: rest) acc = parsePairs rest (setPkg acc k (parseLevel v)) ∧
+      (setPkg acc k (parseLevel v)).lookup k = some (parseLevel v) := by
+  simp [parsePairs, hv, setPkg, List.lookup]
+
 /-! ### Wake-up handshake -/
 
 /-- No lost wake-up: whenever the writer sleeps in its first select while lines are buffered, a wake-up
@@ -429,6 +490,19 @@ example : (run (St.init 8 true ⟨3, false, []⟩) (demoMixed.take 17)).map (fun
     some (some l1, 1) := by decide
 example : (run (St.init 8 true ⟨3, false, []⟩) demoMixed).map (fun s => s.out) =
     some [(l1, 1), (l1t, 0)] := by decide
+
+/-- Start with flags: the pairs of `-plog orga=debug,zz=trace,orga=ERROR,bad,orgb=info`: orga error (the later
+    entry wins), zz trace, the malformed pair ends the reading (orgb is not read). An unknown `-log` name
+    falls back to info and leaves the package levels set before Start alone. -/
+example : parsePairs [["orga", "debug"], ["zz", "trace"], ["orga", "ERROR"], ["bad"], ["orgb", "info"]] [] =
+    [("orga", 5), ("zz", 1)] := by
+  with_unfolding_all decide
+example : startLevels (fun _ => 9) ⟨2, true, [(1, 6)]⟩ "verbose" "" = ⟨3, true, [(1, 6)]⟩ := by
+  with_unfolding_all decide
+example : parseLevel "WARNing" = 4 ∧ parseLevel "Trace" = 1 ∧ parseLevel " info" = 0 := by
+  with_unfolding_all decide
+example : lookupLevel "warning" = 4 ∧ lookupLevel "warn" = 0 ∧ lookupLevel "" = 0 ∧ severityName 5 = "error" ∧
+    severityName 0 = "none" ∧ severityName 7 = "none" := by decide
 
 /-- The run checker: a conforming output passes, a lost / duplicated / filtered / reordered one fails. -/
 def exps0 : Nat → List Item := fun g =>
